@@ -163,6 +163,9 @@ func must(err error) {
 
 // OpSpec describes one honest request to be built with the client library.
 type OpSpec struct {
+	// RevealHash: the multihash algorithm of the reveal value (the algorithm of the commitment being consumed); 0 = Hash.
+	RevealHash uint
+
 	Type         operation.Type
 	Suffix       string
 	Hash         uint
@@ -180,6 +183,11 @@ type OpSpec struct {
 
 // Build produces the request bytes with the real client library.
 func Build(s *OpSpec) ([]byte, error) {
+	revealHash := s.RevealHash
+	if revealHash == 0 {
+		revealHash = s.Hash
+	}
+
 	switch s.Type {
 	case operation.TypeCreate:
 		return client.NewCreateRequest(&client.CreateRequestInfo{
@@ -199,7 +207,7 @@ func Build(s *OpSpec) ([]byte, error) {
 			UpdateKey:        s.SignKey.JWK,
 			MultihashCode:    s.Hash,
 			Signer:           s.SignKey.Signer,
-			RevealValue:      s.SignKey.Reveal(s.Hash),
+			RevealValue:      s.SignKey.Reveal(revealHash),
 			AnchorFrom:       s.From,
 			AnchorUntil:      s.Until,
 		})
@@ -216,14 +224,14 @@ func Build(s *OpSpec) ([]byte, error) {
 			AnchorUntil:        s.Until,
 			MultihashCode:      s.Hash,
 			Signer:             s.SignKey.Signer,
-			RevealValue:        s.SignKey.Reveal(s.Hash),
+			RevealValue:        s.SignKey.Reveal(revealHash),
 		})
 	case operation.TypeDeactivate:
 		return client.NewDeactivateRequest(&client.DeactivateRequestInfo{
 			DidSuffix:   s.Suffix,
 			RecoveryKey: s.SignKey.JWK,
 			Signer:      s.SignKey.Signer,
-			RevealValue: s.SignKey.Reveal(s.Hash),
+			RevealValue: s.SignKey.Reveal(revealHash),
 			AnchorFrom:  s.From,
 			AnchorUntil: s.Until,
 		})
@@ -416,9 +424,11 @@ func ExternalKeyValue(id, mark string) (string, string) {
 //
 //	0 https URL                                   1 https URL with a query string containing '&'
 //	2 authority-less URI (did:..., as DIDComm mediators use)   3 array of URIs (https + urn)
-//	4 object with a uri member and further members
+//	4 object with a uri member and further members         5 array mixing a URI and an object
 func svcEndpointJSON(id, mark string) string {
-	switch (idMarkHash(id, mark) / 11) % 5 {
+	switch (idMarkHash(id, mark) / 11) % 6 {
+	case 5: // a set mixing a plain URI and an endpoint object
+		return fmt.Sprintf(`["https://sim.example/%s",{"uri":"https://sim.example/%s","accept":["didcomm/v2"]}]`, mark, mark)
 	case 1:
 		return fmt.Sprintf(`"https://sim.example/%s?tenant=a&mode=b"`, mark)
 	case 2:
@@ -580,6 +590,10 @@ func ToPatch(d PatchDesc) (patch.Patch, error) {
 	case RemoveNote:
 		return patch.NewJSONPatch(`[{"op":"remove","path":"/note"}]`)
 	case ReplaceAll:
+		if len(d.IDs) == 0 {
+			return patch.NewReplacePatch("{}") // reset to the empty document
+		}
+
 		doc := `{"publicKeys":[`
 
 		for i, id := range d.IDs {
